@@ -1,3 +1,4 @@
+from common import guarded
 """C03  Skewness and kurtosis estimators equal the exact standardized moments.  Engine RS + VL."""
 import terms as tm
 from terms import T, UINT, REAL, TRUE, And, Not, Or, real
@@ -42,11 +43,11 @@ def run(tier, seed):
                 mr.check_accessor(pr, cr, ty, f, acc, n_cases(1, kurt_spec, extra_hyps=rz), mks)
     obs = pr.obs
     import envelope
-    obs += envelope.guard_moments("C03", "Kurtosis", ["mean", "population_variance", "sample_variance", "error_mean", "skewness", "kurtosis"],
-                                  "src/moments/kurtosis.rs::Kurtosis (add-only histories)")
-    obs += envelope.guard_moments("C03", "Skewness", ["mean", "population_variance", "sample_variance", "error_mean", "skewness"],
-                                  "src/moments/skewness.rs::Skewness (add-only histories)")
-    obs += vl.run_lemmas("C03", ["lemma_fold", "swap", "realizable", "bridge", "real_sq"])
+    obs += guarded("C03.engine.envelope.guard_moments@L45", lambda: envelope.guard_moments("C03", "Kurtosis", ["mean", "population_variance", "sample_variance", "error_mean", "skewness", "kurtosis"],
+                                  "src/moments/kurtosis.rs::Kurtosis (add-only histories)"))
+    obs += guarded("C03.engine.envelope.guard_moments@L47", lambda: envelope.guard_moments("C03", "Skewness", ["mean", "population_variance", "sample_variance", "error_mean", "skewness"],
+                                  "src/moments/skewness.rs::Skewness (add-only histories)"))
+    obs += guarded("C03.engine.vl.run_lemmas@L49", lambda: vl.run_lemmas("C03", ["lemma_fold", "swap", "realizable", "bridge", "real_sq"]))
     meta = {
         "level": "proof",
         "checker_cmd": "./check C03 (rsx -> RS executor -> sympy normal form / z3 QF_NRA; verus history.rs)",
